@@ -30,7 +30,7 @@ X_UNUSED = ('Trees = "none" Slots = {} LinkTargets = {} MaxLinks = 0 MaxNodes = 
 
 def x_cfg(dev, emit, maxentries, kinds, invs=True, only=False):
     return ("CONSTANTS\n Dev = {%s}\n Emit = %s\n Part = \"X\"\n Kinds = {%s}\n Names <- cNames\n Targets <- cTargets\n"
-            " MaxEntries = %d\n Only <- cOnly\n %sINIT XInit\nNEXT XNext\nVIEW %s\n%sACTION_CONSTRAINT XEmitEdge\n" % (
+            " MaxEntries = %d\n Only <- cOnly\n ModeNames <- cModeNames\n %sINIT XInit\nNEXT XNext\nVIEW %s\n%sACTION_CONSTRAINT XEmitEdge\n" % (
                 ",".join('"%s"' % d for d in dev), "TRUE" if emit else "FALSE",
                 ",".join('"%s"' % k for k in kinds), maxentries, X_UNUSED, "viewH" if only else "view",
                 "INVARIANTS NoEscape WellFormed\n" if invs else ""))
@@ -41,12 +41,12 @@ def tla_entry(e):
 
 
 def x_run(ctx, names, targets, maxentries, dev=(), emit=True, invs=True, kinds=("dir", "dirc", "file", "sym", "hard"),
-          expect_violation=False, simulate=None, depth=None, tag="MCX", only=None):
+          expect_violation=False, simulate=None, depth=None, tag="MCX", only=None, mode_names=(("x",), ("d",))):
     """only: list of archives -> TLC extracts exactly these (hist kept in the view): used to ask what a given
     deviation predicts for archives observed on the real code"""
     conly = "{}" if not only else tla_set("<<" + ", ".join(tla_entry(e) for e in a) + ">>" for a in only)
     files = {tag + ".tla": mc_module(tag, {"cNames": tla_seqset(names), "cTargets": tla_seqset(targets),
-                                           "cOnly": conly}),
+                                           "cOnly": conly, "cModeNames": tla_seqset(mode_names)}),
              tag + ".cfg": x_cfg(dev, emit, maxentries, kinds, invs, only=bool(only))}
     return ctx.tlc(tag, tag + ".cfg", files=files, expect_violation=expect_violation, simulate=simulate, depth=depth,
                    name=tag, timeout=1500)
@@ -130,7 +130,7 @@ def x_add_cases(cases, graph, archives):
         if p is None:
             continue
         have.add(k)
-        cases.append({"id": len(cases), "arch": a, "st": p[0], "t": p[1]})
+        cases.append({"id": len(cases), "arch": a, "st": p[0], "t": p[1], "from_dev": True})
         added += 1
     return added
 
@@ -153,8 +153,7 @@ X_SITES = [("filetransfer", "UntarDirectory", "DevLexicalOnly", ("gz",)),
 
 def x_replay(ctx, cases, corrupt=-1, name="untar_cases.json", pkg="filetransfer", plain=False):
     inp = os.path.join(ctx.work, name)
-    if not os.path.exists(inp) or corrupt >= 0:
-        vf.write_json(inp, {"world": X_WORLD, "dest": ["w", "o"], "cases": cases, "corrupt": corrupt})
+    vf.write_json(inp, {"world": X_WORLD, "dest": ["w", "o"], "cases": cases, "corrupt": corrupt})
     r = ctx.gotest(pkg, HFILES + ["filetransfer/untar_test.go.tmpl", pkg + "/untar_site_test.go"],
                    "^TestZZVUntarReplay$", env={"ZZV_IN": inp, "ZZV_WORKERS": 4, "ZZV_PLAIN": 1 if plain else 0},
                    timeout=1500)
@@ -189,7 +188,7 @@ def same_snap(real, pred):
 
 
 # --------------------------------------------------------------------------- part A (C26)
-A_UNUSED = "Kinds = {} Names = {} Targets = {} MaxEntries = 0 Only = {}\n"
+A_UNUSED = "Kinds = {} Names = {} Targets = {} MaxEntries = 0 Only = {} ModeNames = {}\n"
 OPS = ["upload", "download", "list", "stat", "chmod", "delete", "rdelete"]
 WILD = ["rel", "*"]
 
